@@ -66,6 +66,9 @@ pub struct K17 {
     /// `TZ` of the client (None = UTC)
     #[serde(default)]
     pub tz: Option<String>,
+    /// what answers on the gpsd port is not gpsd: this line is sent instead of the greeting
+    #[serde(default)]
+    pub gpsd_banner: Option<String>,
 }
 
 /// kinds of `--airports` arguments; the first three are files radar can use
@@ -197,7 +200,7 @@ pub const INVALID_CLI: [&[&str]; 20] = [
 pub fn generate(rng: &mut Rng, fault_free: bool) -> K17 {
     if !fault_free && rng.chance(0.08) {
         let a = *rng.pick(&INVALID_CLI);
-        return K17 { args: vec![], cols: 80, rows: 24, refused_first: 0, lines: vec![], events: vec![], quit_at_us: 100_000, quit_ctrl_c: false, proc_delay_us: vec![], reconnect_at_us: None, invalid_cli: Some(a.iter().map(|s| s.to_string()).collect()), rx: (35.0, -80.0), sweep: 0, compass: 0, ev_delay_us: vec![], gpsd: None, airports: None, rust_log: None, connect_errnos: vec![], airports_spoiled: None, tz: None };
+        return K17 { args: vec![], cols: 80, rows: 24, refused_first: 0, lines: vec![], events: vec![], quit_at_us: 100_000, quit_ctrl_c: false, proc_delay_us: vec![], reconnect_at_us: None, invalid_cli: Some(a.iter().map(|s| s.to_string()).collect()), rx: (35.0, -80.0), sweep: 0, compass: 0, ev_delay_us: vec![], gpsd: None, airports: None, rust_log: None, connect_errnos: vec![], airports_spoiled: None, tz: None, gpsd_banner: None };
     }
     let (cols, rows) = if fault_free {
         *rng.pick(&[(80u16, 24u16), (120, 40)])
@@ -223,7 +226,12 @@ pub fn generate(rng: &mut Rng, fault_free: bool) -> K17 {
     if rng.chance(0.3) {
         args.push(format!("--scale={}", *rng.pick(&["0.01", ".12", "1", "100", "0.0001", "1e6"])));
     }
-    let filter = *rng.pick(&[0u64, 1, 1, 2, 2, 3, 120, u64::MAX]);
+    // a session left alone: nothing from the operator and nothing new from the server for one to
+    // five minutes of simulated time (every timer the client may own fires in that time); most of
+    // these keep their aircraft (no expiry), two of them parked on the same spot, and the operator
+    // looks at a tab now and then: whatever accumulates per main-loop pass has time to do so
+    let long_quiet = !fault_free && rng.chance(0.014);
+    let filter = if long_quiet && rng.chance(0.7) { *rng.pick(&[1_000_000u64, u64::MAX]) } else { *rng.pick(&[0u64, 1, 1, 2, 2, 3, 120, u64::MAX]) };
     args.push(format!("--filter-time={filter}"));
     if rng.chance(0.4) {
         args.push("--locations".into());
@@ -244,7 +252,7 @@ pub fn generate(rng: &mut Rng, fault_free: bool) -> K17 {
     let deep = simcore::deep() && rng.chance(0.33);
     let duration_us: u64 = 500_000 + rng.below(if fault_free { 4_000_000 } else if deep { 25_000_000 } else { 9_000_000 });
     // traffic
-    let nac = rng.usize_below(7);
+    let nac = if long_quiet { 2 + rng.usize_below(4) } else { rng.usize_below(7) };
     let mut lines: Vec<(u64, String)> = vec![];
     for a in 0..nac {
         let addr = [0xa0, 0x10, a as u8 + 1];
@@ -255,7 +263,7 @@ pub fn generate(rng: &mut Rng, fault_free: bool) -> K17 {
         let mut ctr = 0u32;
         // some aircraft sit exactly on the receiver (distance 0); some jump far away and back
         // (rejected fixes, cleared records, new distance maxima) while the operator looks at Stats
-        let on_top = rng.chance(0.1);
+        let on_top = rng.chance(0.1) || (long_quiet && a < 2);
         let jumper = !on_top && rng.chance(0.25);
         let lat = if on_top { RX.0 } else { (RX.0 + rng.f64_range(-0.8, 0.8)).clamp(-89.9, 89.9) };
         let lon = if on_top { RX.1 } else { RX.1 + rng.f64_range(-0.8, 0.8) };
@@ -385,10 +393,14 @@ pub fn generate(rng: &mut Rng, fault_free: bool) -> K17 {
     }
     let rust_log = if !fault_free && rng.chance(0.3) { Some((*rng.pick(&["trace", "debug", "info", "rsadsb_common=trace", "radar=trace,adsb_deku=debug", "warn", ""])).to_string()) } else { None };
     let connect_errnos: Vec<i32> = if !fault_free && rng.chance(0.3) { (0..3).map(|_| *rng.pick(&[0, 0, 101, 113, 100, 104, 103, 4, 13, 99])).collect() } else { vec![] };
+    let gpsd_banner = if gpsd.is_some() && rng.chance(0.25) {
+        Some((*rng.pick(&["SSH-2.0-OpenSSH_9.6", "HTTP/1.1 400 Bad Request", "", "{\"class\":\"VERSION\",\"release\":\"2.96\",\"rev\":\"2.96\",\"proto_major\":2,\"proto_minor\":9}", "{\"class\":\"DEVICES\",\"devices\":[]}", "\u{0}\u{1}\u{2}"])).to_string())
+    } else {
+        None
+    };
     let tz = if !fault_free && rng.chance(0.4) { Some((*rng.pick(&["EST5EDT", "PST8PDT", "<-03>3", "<+0530>-5:30", "JST-9", "America/New_York", "<-11>11", "<+13>-13", "UTC0"])).to_string()) } else { None };
     // a session left alone: nothing from the operator and nothing new from the server for one to
     // five minutes of simulated time (every timer the client may own fires in that time)
-    let long_quiet = !fault_free && rng.chance(0.012);
     let quit_at_us = if long_quiet {
         duration_us + *rng.pick(&[65_000_000u64, 125_000_000, 185_000_000, 310_000_000]) + rng.below(3_000_000)
     } else if rng.chance(0.15) {
@@ -397,6 +409,13 @@ pub fn generate(rng: &mut Rng, fault_free: bool) -> K17 {
         50_000 + rng.below(duration_us)
     };
     events.retain(|e| e.at_us < quit_at_us);
+    if long_quiet {
+        for _ in 0..3 + rng.below(5) {
+            let t = duration_us + rng.below(quit_at_us - duration_us);
+            events.push(KEvent { at_us: t, ev: key(*rng.pick(&["F1", "F2", "F2", "F3", "F4", "F5", "c:-", "c:+"])) });
+        }
+        events.sort_by_key(|e| e.at_us);
+    }
     let refused_first = if !fault_free && rng.chance(0.2) { 1 + rng.below(8) as u32 } else { 0 };
     let proc_delay_us = if !fault_free && rng.chance(0.2) { (0..6).map(|_| *rng.pick(&[0u64, 0, 30_000, 200_000])).collect() } else { vec![] };
     let reconnect_at_us = if !fault_free && args.iter().any(|a| a == "--retry-tcp") && rng.chance(0.6) { Some(100_000 + rng.below(duration_us)) } else { None };
@@ -438,9 +457,9 @@ pub fn generate(rng: &mut Rng, fault_free: bool) -> K17 {
         let args: Vec<String> = args.into_iter().filter(|a| !a.starts_with("--filter-time") && a != "--retry-tcp" && !a.starts_with("--max-range") && a != "--limit-parsing").collect();
         let mut args = args;
         args.retain(|a| a != "--disable-heading");
-        return K17 { args, cols, rows, refused_first: 0, lines: vec![], events, quit_at_us, quit_ctrl_c: false, proc_delay_us: vec![], reconnect_at_us: None, invalid_cli: None, rx: (35.0, -80.0), sweep, compass, ev_delay_us: vec![], gpsd: None, airports: None, rust_log: None, connect_errnos: vec![], airports_spoiled: None, tz: None };
+        return K17 { args, cols, rows, refused_first: 0, lines: vec![], events, quit_at_us, quit_ctrl_c: false, proc_delay_us: vec![], reconnect_at_us: None, invalid_cli: None, rx: (35.0, -80.0), sweep, compass, ev_delay_us: vec![], gpsd: None, airports: None, rust_log: None, connect_errnos: vec![], airports_spoiled: None, tz: None, gpsd_banner: None };
     }
-    K17 { args, cols, rows, refused_first, lines, events, quit_at_us, quit_ctrl_c: rng.chance(0.3), proc_delay_us, reconnect_at_us, invalid_cli: None, rx: RX, sweep: 0, compass: 0, ev_delay_us, gpsd, airports, rust_log, connect_errnos, airports_spoiled, tz }
+    K17 { args, cols, rows, refused_first, lines, events, quit_at_us, quit_ctrl_c: rng.chance(0.3), proc_delay_us, reconnect_at_us, invalid_cli: None, rx: RX, sweep: 0, compass: 0, ev_delay_us, gpsd, airports, rust_log, connect_errnos, airports_spoiled, tz, gpsd_banner }
 }
 
 pub fn compile(sc: &K17) -> KChild {
@@ -532,6 +551,9 @@ pub fn compile(sc: &K17) -> KChild {
                 lines.push(l(*t, json!({"class": "SKY", "device": "/dev/ttyACM0", "satellites": []}), None));
             }
             lines.push(l(*t, json!({"class": "TPV", "device": "/dev/ttyACM0", "mode": 3, "lat": la, "lon": lo}), Some((*la, *lo))));
+        }
+        if let Some(b) = &sc.gpsd_banner {
+            lines[0] = KGpsdLine { at_us: 0, text: b.clone(), fix: None };
         }
         KGpsd { refuse: *refuse, lines }
     });
@@ -688,6 +710,9 @@ pub fn execute(sc: &K17) -> Outcome {
     if p.run.seam_log.contains("GPSD connect refuse") {
         out.fault("gpsd_connection_refused");
     }
+    if sc.gpsd_banner.is_some() && p.run.stderr.contains("panicked at") {
+        out.fault("gpsd_port_answers_with_something_else_helper_thread_dies");
+    }
     if sc.rust_log.is_some() {
         out.fault("diagnostics_switched_on");
     }
@@ -802,6 +827,9 @@ pub fn shrink(sc: &K17) -> Vec<K17> {
     }
     if sc.tz.is_some() {
         c.push(K17 { tz: None, ..sc.clone() });
+    }
+    if sc.gpsd_banner.is_some() {
+        c.push(K17 { gpsd_banner: None, ..sc.clone() });
     }
     if sc.airports_spoiled.is_some() {
         c.push(K17 { airports_spoiled: None, ..sc.clone() });
